@@ -51,7 +51,7 @@ def gen(seed, tier="quick"):
     az = ic.uniform(-math.pi, math.pi)
     yaw_err = ic.uniform(-2.6, 2.6)  # initial heading relative to the commanded heading, see note below
     # the commanded hover includes a heading (the script's yaw set-point, moved by the rudder stick)
-    psi_sp = 0.0 if ic.random() < 0.4 else ic.uniform(-math.pi, math.pi)
+    psi_sp = 0.0 if ic.random() < 0.25 else ic.uniform(-math.pi, math.pi)
     # Initial heading error is limited to 150 degrees: the property's envelope speaks of tilt, not of
     # heading, and within ~0.1 rad of a 180 degree heading error combined with a 55-60 degree tilt the
     # log-linear cascade tumbles for good (measured; the position cascade recovers from the same
@@ -67,7 +67,7 @@ def gen(seed, tier="quick"):
     if rest < 0.08:
         om = [0.0, 0.0, 0.0]
     mot = [HOVER_OMEGA if ic.random() < 0.7 else 0.0] * 4
-    if ic.random() < 0.12:
+    if ic.random() < 0.18:
         # the simulator's own default situation: standing on the ground, rotors at rest, hover point a few
         # metres up and to the side (ground contact model and motor spin-up are in the loop from t = 0)
         sp = [sp[0], sp[1], ic.uniform(2.0, 5.0)]
